@@ -51,6 +51,7 @@ struct Inst {
   std::map<std::string, std::vector<long double>> v, v0;
   std::set<std::string> wild;  // scalars currently holding a value outside the admissible pool
   bool poisoned = false;       // fixture after init_param: never sanity-checked again
+  uint64_t serial = 0;         // identity of this instance within the run (never part of an oracle key)
   struct Recent {
     int ev;
     long double x[4];
